@@ -261,6 +261,9 @@ class Module:
                             (st.value, tgt, st))
                     if isinstance(tgt, ast.Name) and isinstance(st.value, ast.Name):
                         self.aliases[tgt.id] = st.value.id
+                    if isinstance(tgt, ast.Subscript) and isinstance(tgt.value, ast.Name):
+                        # TABLE[k] = v at module level: part of TABLE's definition
+                        self.assigns.setdefault(tgt.value.id, []).append((st, tgt, st))
             elif isinstance(st, ast.AugAssign):
                 if armed and isinstance(st.target, ast.Name):
                     self.assigns.setdefault(st.target.id, []).append(
@@ -296,6 +299,17 @@ class Module:
                     self.unarmed.append((h.lineno, 'except handler at module level'))
                 self._scan(st.finalbody, armed)
             elif isinstance(st, (ast.For, ast.While, ast.With)):
+                if armed and isinstance(st, ast.For):
+                    # a module-level loop that fills tables: record it under each table it stores into
+                    for n in ast.walk(st):
+                        if isinstance(n, ast.Assign):
+                            for tgt in n.targets:
+                                if isinstance(tgt, ast.Subscript) and isinstance(tgt.value, ast.Name):
+                                    lst = self.assigns.setdefault(tgt.value.id, [])
+                                    if not any(x[2] is st for x in lst):
+                                        lst.append((st, None, st))
+                    # names bound inside the loop body are not constants
+                    continue
                 self._scan(st.body, armed)
 
     def _scan_nested(self, fi):
